@@ -85,7 +85,7 @@ CHECKS = {
                      'the heap (frame theorem, partial for settledness); real plot_circuit descriptions/transforms compared with the '
                      'model; side-effect clause by before/after and twin runs under foreign ambient durations. reorder_indices (row order) is proved equal to its SOURCE TEXT.', ref='DESIGN.md §4 C18'),
     'C19': dict(text='Channel matching, edge/qubit identity and hash, unique_in_order (33 theorems, full strength, about the definitions '
-                     'the heap model uses); ChannelIdentifier.__eq__ and EdgeIDObj.contains/__eq__ proved equal to their SOURCE TEXT; exhaustive correspondence over 12² / 12³ channel identifiers, 17² qubits, 48² edges.',
+                     'the heap model uses); ChannelIdentifier.__eq__, EdgeIDObj.contains/__eq__ and unique_in_order (the loop over a growing set) proved equal to their SOURCE TEXT; exhaustive correspondence over 12² / 12³ channel identifiers, 17² qubits, 48² edges.',
                 ref='DESIGN.md §4 C19'),
 }
 for _c in CHECKS.values():
